@@ -15,6 +15,8 @@
 -/
 import Calc.Proofs.PrintComplex
 import Calc.Proofs.PrintExample
+import Calc.Proofs.PrintMatrix
+import Calc.Proofs.PrintSplit
 import Calc.Props.C05
 namespace Calc.Props.C15
 open Calc Calc.Spec
@@ -101,6 +103,102 @@ theorem C15_number_value (z : S) : showValue (.number z) = complexToString z := 
 
 end Complex
 
+/-! ### measurements: the split `number text ++ symbol` is unique -/
+
+/-- **C15 (the measurement text splits in one way).** Some symbols are suffixes of others (`m` of
+    `nm`, `t` of `ft`, `B` of `KiB`), yet a text is `number text ++ unit symbol` in at most one way:
+    for texts `x`, `y` that end as printed numbers do (`Spec.numTextEnd`: a digit, `inf`, `NaN`,
+    `)`, or an `i` that is the whole text or follows a digit, `inf`, `NaN`, a blank or `-`),
+    `x ++ symbol u = y ++ symbol v` forces `x = y` and `u = v`.  The finite core
+    (`symbol_suffix_table`, over all 48 × 48 pairs of shipped symbols) is checked by the kernel. -/
+theorem C15_measurement_split (x y : Str) (u v : Unit)
+    (hx : numTextEnd x = true) (hy : numTextEnd y = true)
+    (h : x ++ (Gen.unitSymbol u).toList = y ++ (Gen.unitSymbol v).toList) : x = y ∧ u = v :=
+  split_unique x y u v (C05.unit_all_complete u) (C05.unit_all_complete v) hx hy h
+
+section Measurement
+variable {R : Type} [Zero R] [One R] [Neg R]
+
+/-- … and the number part of a printed measurement is such a text. -/
+theorem C15_measurement_number_text (F : FmtSpec S R) (z : S) :
+    numTextEnd (complexToString z) = true ∧
+    numTextEnd ("(".toList ++ complexToString z ++ ")".toList) = true := by
+  refine ⟨numTextEnd_complexToString F z, ?_⟩
+  unfold numTextEnd
+  simp only [List.reverse_append]
+  rfl
+
+/-- **C15 (the text determines the measurement).** Two measurements with the same printed text
+    have the same unit and the same number (parts up to the zero test, as in `C15_complex`). -/
+theorem C15_measurement_determines (F : FmtSpec S R) (z w : S) (u v : Unit)
+    (h : showMeasurement z u = showMeasurement w v) :
+    u = v ∧ F.same (F.re z) (F.re w) ∧ F.same (F.im z) (F.im w) := by
+  have := showMeasurement_inj F z w u v (C05.unit_all_complete u) (C05.unit_all_complete v) h
+  exact ⟨this.2, C15_complex_determines F z w this.1⟩
+
+end Measurement
+
+/-! ### matrices -/
+
+/-- **C15 (matrix, one row per line).** A matrix with at least one row and no empty row prints
+    as `[`, its rows joined by line breaks, `]`; the line of row `i` is a blank (for `i > 0`)
+    followed by the row's cells joined by `, `, the `j`-th cell being the `j`-th entry padded on
+    the left to the width of column `j`. -/
+theorem C15_matrix_lines (m : List (List Str)) (hne : m ≠ []) (hrows : ∀ r ∈ m, r ≠ []) :
+    matrixFormat m =
+      '[' :: joinWith ['\n'] ((List.zipIdx m).map fun p =>
+        (if p.2 = 0 then [] else [' ']) ++
+          joinWith ", ".toList ((List.zip p.1 (mfWidths m)).map fun ew => padLeft ew.2 ew.1)) ++ [']'] :=
+  matrixFormat_eq m hne hrows
+
+/-- … and padding only prepends blanks: dropping the blanks in front of a padded cell gives the
+    entry's text (when that does not itself begin with a blank). -/
+theorem C15_matrix_padding (w : Nat) (s : Str) (hs : s.head? ≠ some ' ') :
+    (padLeft w s).dropWhile (· = ' ') = s :=
+  padLeft_trim w s hs
+
+/-- **C15 (matrix, every entry in row-major order).** Reading the printed text back — strip `[`
+    and `]`, one row per line, cells separated by `,`, blanks in front of a cell dropped
+    (`Spec.unformat`) — gives exactly the rows of entry texts, provided there is at least one row,
+    no row is empty, and every entry text is non-empty, contains no comma and no line break and
+    does not begin with a blank. -/
+theorem C15_matrix (m : List (List Str)) (hne : m ≠ []) (hrows : ∀ r ∈ m, r ≠ [])
+    (hclean : ∀ r ∈ m, ∀ e ∈ r, e ≠ [] ∧ ',' ∉ e ∧ '\n' ∉ e ∧ e.head? ≠ some ' ') :
+    unformat (matrixFormat m) = m :=
+  unformat_matrixFormat m hne hrows
+    (fun r hr e he => ⟨⟨(hclean r hr e he).2.1, (hclean r hr e he).2.2.1, (hclean r hr e he).2.2.2⟩,
+      (hclean r hr e he).1⟩)
+
+/-- the empty matrix prints as `[]` and reads back as no rows -/
+theorem C15_matrix_empty : matrixFormat [] = "[]".toList ∧ unformat "[]".toList = [] := by
+  constructor <;> decide
+
+section MatrixValue
+variable {R : Type} [Zero R] [One R] [Neg R]
+
+/-- **C15 (matrix value).** A matrix value prints the texts of its entries (`complexToString`) in
+    that layout; under `FmtSpec`, when the printer of reals prints no comma and no line break,
+    the printed matrix reads back as the rows of the entries' texts — each of which reads back as
+    the entry (`C15_complex`). -/
+theorem C15_matrix_value (F : FmtSpec S R) (hf : ∀ x : R, ',' ∉ F.fmt x ∧ '\n' ∉ F.fmt x)
+    (m : List (List S)) (hne : m ≠ []) (hrows : ∀ r ∈ m, r ≠ []) :
+    unformat (showValue (.matrix m)) = m.map fun r => r.map complexToString := by
+  show unformat (matrixFormat (m.map fun r => r.map complexToString)) = _
+  apply unformat_matrixFormat
+  · simpa using hne
+  · intro r hr
+    simp only [List.mem_map] at hr
+    obtain ⟨r', hr', rfl⟩ := hr
+    simpa using hrows r' hr'
+  · intro r hr e he
+    simp only [List.mem_map] at hr
+    obtain ⟨r', -, rfl⟩ := hr
+    simp only [List.mem_map] at he
+    obtain ⟨z, -, rfl⟩ := he
+    exact (cleanText_complexToString F hf z).cell
+
+end MatrixValue
+
 /-! ### the hypotheses are satisfiable -/
 
 /-- `FmtSpec` has an instance: Gaussian integers printed in decimal. -/
@@ -121,5 +219,20 @@ example : complexToString ((-2, 1) : PrintExample.G) = "-2 + i".toList := by dec
 example : showMeasurement ((5, 0) : PrintExample.G) (.distance .meter) = "5m".toList := by decide +kernel
 example : showMeasurement ((5, 2) : PrintExample.G) (.storage .kibibyte) = "(5 + 2i)KiB".toList := by
   decide +kernel
+
+
+/-- the lexical hypothesis of `C15_matrix_value` holds of the example instance -/
+example : ∀ x : Int, ',' ∉ PrintExample.fmtSpec.fmt x ∧ '\n' ∉ PrintExample.fmtSpec.fmt x :=
+  PrintExample.fmtInt_clean
+
+/-- the matrix of the test suite: `[[1, 2], [3 + 4i, i]]` -/
+example : showValue (.matrix [[((1, 0) : PrintExample.G), (2, 0)], [(3, 4), (0, 1)]]) =
+    "[     1, 2\n 3 + 4i, i]".toList := by decide +kernel
+example : unformat "[     1, 2\n 3 + 4i, i]".toList =
+    [["1".toList, "2".toList], ["3 + 4i".toList, "i".toList]] := by decide +kernel
+
+/-- the measurement split: `5KiB` is `5` + `KiB`, not `5Ki` + `B` -/
+example : numTextEnd "5".toList = true ∧ numTextEnd "5Ki".toList = false ∧
+    numTextEnd "5f".toList = false ∧ numTextEnd "inf".toList = true := by decide +kernel
 
 end Calc.Props.C15
